@@ -1476,6 +1476,113 @@ def repoint_cases(rng, n):
     return out
 
 
+# ---- objects that live in ANOTHER module: an exported instance is one object for the exporting module and for every
+# importer, whether it is reached by name (`import shared from lib`), through the module value (`lib.shared`), through an
+# exported function that returns it, or as an element of an exported list; its fields and methods are usable through each
+# of them and `is` holds between all.  Python statement of the property.
+MOD_LIB = ("export class Box {\n\tv: int\n\titems: [int...]\n\tconstructor(self, v: int) {\n\t\tself.v = v\n\t\tself.items = [v]\n\t}\n"
+           "\tfn inc(self, d: int) -> int {\n\t\tself.v = self.v + d\n\t\treturn self.v\n\t}\n\tfn me(self) -> Self {\n\t\treturn self\n\t}\n}\n"
+           "export shared: Box = Box(100)\nexport boxes: [Box...] = [Box(1), Box(2)]\n"
+           "export touch: fn(int) -> int = fn(d: int) -> int {\n\treturn shared.inc(d)\n}\n"
+           "export current: fn() -> Box = fn() -> Box {\n\treturn shared\n}\n"
+           "export same: fn(Box) -> bool = fn(b: Box) -> bool {\n\treturn b is shared\n}\n"
+           "export peek: fn() -> int = fn() -> int {\n\treturn shared.v\n}\n"
+           "export first: fn() -> int = fn() -> int {\n\treturn (boxes[0]).v\n}\n")
+
+
+def module_object_cases(rng, n):
+    out = []
+    for idx in range(n):
+        form = ["names", "whole", "both"][idx % 3]
+        if form == "names":
+            src = "import Box, shared, boxes, touch, current, same, peek, first from lib\n"
+        elif form == "whole":
+            src = "import lib\n"
+        else:
+            src = "import lib\nimport Box, shared, boxes, touch, current, same, peek, first from lib\n"
+
+        def S():
+            return {"names": "shared", "whole": "lib.shared", "both": rng.choice(["shared", "lib.shared"])}[form]
+
+        def P():
+            return {"names": "", "whole": "lib.", "both": rng.choice(["", "lib."])}[form]
+        src += "a = %s\nfresh = %sBox(100)\ne = (%sboxes)[0]\n" % (S(), P(), P())      # (one postfix per atom: `lib.boxes[0]` does not parse)
+        if form != "whole":
+            src += "bump = fn(b: Box, d: int) -> int {\n\tb.v = b.v + d\n\treturn b.v\n}\n"
+        v, items, b0, fr = 100, [100], 1, 100
+        exp = []
+        for _ in range(rng.randint(6, 14)):
+            op = rng.choice(["read", "read-alias", "peek", "current", "write-alias", "write-name", "inc", "touch", "is", "same", "same-fresh", "is-fresh",
+                             "push", "items", "elem-write", "elem-read", "elem-is", "pass", "me", "fresh-write"])
+            k = rng.randint(1, 9)
+            if op == "read":
+                src += "print %s.v\n" % S()
+                exp.append(str(v))
+            elif op == "read-alias":
+                src += "print a.v\n"
+                exp.append(str(v))
+            elif op == "peek":
+                src += "print %speek()\n" % P()
+                exp.append(str(v))
+            elif op == "current":
+                src += "c = %scurrent()\nprint c.v\nprint c is a\n" % P()
+                exp += [str(v), "true"]
+            elif op == "write-alias":
+                v = k
+                src += "a.v = %d\n" % k
+            elif op == "write-name" and form != "whole":
+                v = 10 * k
+                src += "shared.v = %d\n" % v
+            elif op == "inc":
+                v += k
+                src += "print %s.inc(%d)\n" % (S(), k)
+                exp.append(str(v))
+            elif op == "touch":
+                v += k
+                src += "print %stouch(%d)\n" % (P(), k)
+                exp.append(str(v))
+            elif op == "is":
+                src += "print a is %s\n" % S()
+                exp.append("true")
+            elif op == "same":
+                src += "print %ssame(%s)\n" % (P(), rng.choice(["a", S()]))
+                exp.append("true")
+            elif op == "same-fresh":
+                src += "print %ssame(fresh)\n" % P()
+                exp.append("false")
+            elif op == "is-fresh":
+                src += "print fresh is %s\n" % S()
+                exp.append("false")
+            elif op == "push":
+                items.append(k)
+                src += "%s.items.push(%d)\n" % (rng.choice(["a", S()]), k)
+            elif op == "items":
+                src += "print %s.items\n" % rng.choice(["a", S()])
+                exp.append("[" + ", ".join(map(str, items)) + "]")
+            elif op == "elem-write":
+                b0 = 20 + k
+                src += "e.v = %d\n" % b0
+            elif op == "elem-read":
+                src += "print ((%sboxes)[0]).v\nprint %sfirst()\n" % (P(), P())
+                exp += [str(b0), str(b0)]
+            elif op == "elem-is":
+                src += "g = (%sboxes)[0]\nprint g is e\nprint g is a\n" % P()
+                exp += ["true", "false"]
+            elif op == "pass" and form != "whole":
+                v += k
+                src += "print bump(%s, %d)\n" % (rng.choice(["a", "shared"]), k)
+                exp.append(str(v))
+            elif op == "me":
+                src += "m = %s.me()\nprint m is a\n" % S()
+                exp.append("true")
+            elif op == "fresh-write":
+                fr += k
+                src += "fresh.v = fresh.v + %d\nprint fresh.v\nprint a.v\n" % k
+                exp += [str(fr), str(v)]
+        out.append((form, src, exp))
+    return out
+
+
 def run(ctx):
     ok = core.coq_props(ctx, "Props/C08.v")
     binary = core.build_repo()
@@ -1627,6 +1734,23 @@ def run(ctx):
                        {"program": src, "expected": exp, "observed": got, "rc": rc, "stderr": err[-300:], "how": "mscript run main.ms -q"})
     n_eval += len(rcs)
     ctx.cov["repoint_cases"] = len(rcs)
+    mcs = module_object_cases(ctx.rng, 45 if ctx.quick() else 450)
+
+    def one_mod(c):
+        d = programs.materialize({"files": {"main.ms": c[1], "lib.ms": MOD_LIB}}, rbase)
+        r = programs.run_bin(binary, ["run", "main.ms", "-q"], d)
+        shutil.rmtree(d, ignore_errors=True)
+        return r
+    for (form, src, exp), (rc, out, err) in zip(mcs, programs.pmap(one_mod, mcs)):
+        got = out.split("\n")[:-1]
+        if rc != 0 or got != exp:
+            spec_found = True
+            why = [l.strip() for l in out.splitlines() if l.strip().startswith("=")]
+            ctx.report("object-of-another-module", "an instance exported by a module (import form: %s) is not one shared object with usable fields and methods: exit %d, printed %r %s, expected %r"
+                       % (form, rc, got[-5:], why[:1], exp[-5:]),
+                       {"files": {"main.ms": src, "lib.ms": MOD_LIB}, "expected": exp, "observed": got, "rc": rc, "stderr": err[-400:], "how": "mscript run main.ms -q"})
+    n_eval += len(mcs)
+    ctx.cov["objects_of_another_module_cases"] = len(mcs)
     ctx.cov["evaluations"] = n_eval
     ctx.cov["traces_validated_against_impl"] = n_cmp
     ctx.cov["distinct_nontrivial"] = nontrivial
